@@ -111,6 +111,14 @@ def rule_splitsafe(ctx):
             inpc = any(symeval.holds(c, p, "in") and tm.is_const(c.a[1], ch) for c, p in symeval.pc_conds(u.pc))
             n += 1
             yield ob("C10.SPLITSAFE", f, "chord.split:split(%r)" % ch, k <= 1 and inpc and u.n == 2, "every accepted label has at most %d %r (witness %r); unpacking into %d targets under `%r in label`" % (k, ch, wit, u.n, ch), node=u.node)
+    # str.partition(ch) always returns a 3-tuple: unpacking it into three targets cannot fail whatever the label holds
+    for u in s.by_kind("unpack"):
+        v = u.value
+        if v.op == "call" and call_name(v) in (".partition", ".rpartition") and len(v.a[1]) == 2 and v.a[1][1].op == "const":
+            ch = v.a[1][1].a[0]
+            k, wit = regexfa.max_count(A, ch)
+            n += 1
+            yield ob("C10.SPLITSAFE", f, "chord.split:split(%r)" % ch, u.n == 3 and k <= 1, "label.partition(%r) unpacked into %d targets (always a 3-tuple); every accepted label has at most %d %r" % (ch, u.n, k, ch), node=u.node)
     need(n >= 3, "C10.SPLITSAFE", "chord.split no longer splits on '/', '(' and ':' by two-target unpacking")
     # split validates before anything else; join validates its output
     first = [c for c in s.calls() if c.fn is not None and c.fn.op == "func"]
@@ -452,6 +460,24 @@ def rule_bitmapguard(ctx):
     conds = list(symeval.pc_conds(m.pc))
     good = False
     why = "store guard not recognised: %s" % "; ".join(tm.show(c, 3) for c, _ in conds)
+    # semantic reading first: the conjunction of the path facts is equivalent to `semitone < length or modulo`
+    from .. import finmodel
+
+    parts = [c if pol else tm.unop("not", c) for c, pol in conds]
+    if parts:
+        path = parts[0] if len(parts) == 1 else tm.boolop("and", parts)
+        ref = tm.boolop("or", [tm.cmp("<", idx, L), tm.param("modulo")])
+        loose = tm.boolop("or", [tm.cmp("<=", idx, L), tm.param("modulo")])
+        eq = finmodel.equivalent(path, ref)
+        if eq is True:
+            yield ob(R, f, "chord.scale_degree_to_bitmap:octave-guard", True, "edit_map is written exactly when semitone < length or modulo (finite model of the guard)", node=m.node)
+            conds = []
+        elif finmodel.equivalent(path, loose) is True:
+            yield ob(R, f, "chord.scale_degree_to_bitmap:octave-guard", False, "guard is semitone <= length: a degree exactly one octave up (index == length) wraps onto the root bit instead of being discarded", node=m.node)
+            conds = []
+        elif eq is None:
+            raise AnalysisError(R, "scale_degree_to_bitmap: store guard outside the comparison forms: %s" % "; ".join(tm.show(c, 3) for c, _ in symeval.pc_conds(m.pc)))
+    semantic_done = not conds and bool(parts)
     for c, pol in conds:
         if pol and c.op == "bool" and c.a[0] == "or":
             parts = list(c.a[1:])
@@ -463,7 +489,8 @@ def rule_bitmapguard(ctx):
                 why = "edit_map is written only when semitone < length or modulo"
             elif loose:
                 why = "guard is semitone <= length: a degree exactly one octave up (index == length) wraps onto the root bit instead of being discarded"
-    yield ob(R, f, "chord.scale_degree_to_bitmap:octave-guard", good, why, node=m.node)
+    if not semantic_done:
+        yield ob(R, f, "chord.scale_degree_to_bitmap:octave-guard", good, why, node=m.node)
     key = m.key
     wrap = key.op == "bin" and key.a[0] == "%" and key.a[1] is idx and key.a[2] is L
     yield ob(R, f, "chord.scale_degree_to_bitmap:index", wrap, "the written position is semitone % length")
